@@ -1,13 +1,33 @@
 from common import COMMON_TB, GRAPH_TB, g_wiring, g_lifecycle, g_runners
 
+def c_starts(obs):
+    """observation of `cstart`: st=<per App> runs=<per runner> early=<k> foreign=<k> - all of it is about runners (C13)"""
+    return tuple(obs.split(" "))
+
+
 PROP = dict(
     module="IocProofs.C13",
-    signatures=['c13-'],
-    subs=[dict(sub="graph", n_quick=1500, n_thorough=40000, project=g_runners)],
+    # 'c13-' covers every oracle of this property by prefix; the oracles of the concurrent-start scenarios are
+    # c13-conc-once, c13-conc-foreign, c13-conc-after-ready
+    signatures=['c13-', 'c13-conc-'],
+    subs=[dict(sub="graph", n_quick=1500, n_thorough=40000, project=g_runners),
+          # concurrent starts of DIFFERENT Apps in one (fresh child) process after a history of app.Settings calls: per App, its own
+          # runners exactly once per start, by its own start, after its own components were initialised. The observation of
+          # this scenario kind speaks about runners only (outcome per App, invocations per runner, too-early and foreign
+          # invocations), so the projection is the whole observation.
+          dict(sub="cstart", driver="conc", n_quick=10, n_thorough=150, project=c_starts)],
     thorough_seeds=2,
     level_text='Runner invocation is a theorem about Ioc.App: the invoked runners are the prefix of the sorted collected runners up to the first failure, every collected runner exactly once when none fails, only after the factory machine is done with every eager component published. The runner log of real starts (three order classes, lazy runners, failing runners) is compared with the model.',
-    level_note="Modelled, not verified: reflect, sync.Map order (imposed), sort.Slice, third-party callbacks as flags/functions. The graph sub-harness is shared with other properties: only this property's oracles and its projection of the observation are compared here.",
-    rule="C01's generator with runner types of the three order classes (plain, ordered, priority-ordered+lazy) and failing runners",
+    level_note="Concurrent starts: App.Run's option loop is modelled over Go slices with capacities (Ioc.Conc section 4); for every Settings "
+               "history, every capacity and every interleaving each App applies exactly its own options followed by the global ones "
+               "(C13_concurrent_starts_isolated), whereas append(globalOptions, ops...) with a spare slot lets one App apply another's "
+               "SetComponents (C13_globals_first_counterexample). Modelled, not verified: reflect, sync.Map order (imposed), sort.Slice, third-party callbacks as flags/functions. The graph sub-harness is shared with other properties: only this property's oracles and its projection of the observation are compared here.",
+    rule="C01's generator with runner types of the three order classes (plain, ordered, priority-ordered+lazy) and failing runners; "
+         "cstart <hist> <nops> <sync> <trials> <r>x<m>...: each scenario in a fresh child process: the app.Settings history hist (mostly three "
+         "one-option calls; 1-6 calls of 1-4 no-op options, or none), then trials (3; 15 without rendezvous; thorough 6/30) rounds of 2-5 "
+         "(thorough 2-8) fresh Apps started at the same moment, App i with its own r (1-4) runners and m (0-6) eager components, passed to "
+         "Run as 1 (2/3 of the cases), 2 or 3 separate options; in 4/5 of the cases the last Settings option is a rendezvous of the starting "
+         "Apps (1 s give-up timer)",
     trusted_base=GRAPH_TB,
     assumptions=['sort.Slice is stable below 12 elements; runner lists are shorter'],
 )
